@@ -871,6 +871,13 @@ def parse_function(mod, m, lines, i):
             f.blocks[cur] = []
             f.order.append(cur)
             first = False
+        if s.startswith("switch ") and s.endswith("["):
+            # multi-line switch: join up to the closing bracket
+            while i < n and not lines[i].strip().startswith("]"):
+                line += " " + lines[i].strip()
+                i += 1
+            line += " ]"
+            i += 1
         f.blocks[cur].append(parse_instr(line, mod, i))
     f._end = i
     return f
